@@ -32,7 +32,7 @@ Lock / wait order found in the code (and enforced by the checked discipline `wfS
 was before the repair (tryRollback keeps `casper.mu` while it waits) the deadlocked configuration
 of finding F23 is reachable, and the discipline check rejects that skeleton.
 -/
-import BytomModel.Lemmas.SyncSkelDead
+import BytomModel.Lemmas.SyncSkelProg
 
 namespace BytomModel.Props.C37
 open BytomModel BytomModel.SyncSkel
@@ -110,6 +110,19 @@ theorem no_deadlock_any_clients (clients : List (List Stmt))
     (hcl : ∀ p ∈ clients, chkL sys ann levelClient TS.empty p = some TS.empty)
     (c : Config) (hr : Reach sys (init sys levelClient clients) c) : ¬ Deadlocked sys c :=
   discipline_sound sys ann skeleton_obeys_discipline clients hcl c hr
+
+/-- **progress (partial)** — in every reachable configuration of the node in which some goroutine
+    is stuck (a call waits for a mutex, for room in a channel or for the block processor's answer),
+    SOME goroutine has an enabled step: the node is never at a standstill with a call outstanding.
+    (Following the providers of the stuck goroutine — holder of the mutex, block processor,
+    cached-vote loop — ends at a goroutine that can move.) Partial: that the stuck call itself
+    eventually returns needs a fair scheduler and termination of the sequential code between the
+    synchronisation actions, neither of which is part of the model. -/
+theorem progress_partial (clients : List (List Stmt))
+    (hcl : ∀ p ∈ clients, chkL sys ann levelClient TS.empty p = some TS.empty)
+    (c : Config) (hr : Reach sys (init sys levelClient clients) c) (hstuck : ∃ i, Stuck sys c i) :
+    ∃ (j n p : Nat) (c' : Config), step sys c j n p = some c' :=
+  some_thread_can_step (reach_inv skeleton_obeys_discipline (init_inv skeleton_obeys_discipline clients hcl) hr) hstuck
 
 /-- the hypotheses are satisfiable on a non-trivial value: one caller of each kind -/
 example : ∀ p ∈ [[Stmt.call f_Chain_ProcessBlock], [.call f_Chain_ProcessBlockVerification], [.call f_Chain_ValidateTx]],
@@ -232,5 +245,37 @@ theorem f23_schedule_harmless_now :
         (f23Schedule.take 7 ++ [(2,0,0), (2,0,0)] ++ f23Schedule.drop 8 ++ [(0,0,0)])).map
           (fun c => c.threads.map (·.held)))
       = some [[(m_Casper_mu, .R)], [], []] := by decide
+
+/-! ### the hypothesis of `progress_partial` is satisfiable: a reachable configuration of the
+node with a stuck goroutine (two callers of `TxPool.RemoveTransaction`: the first holds
+`TxPool.mtx`, the second waits for it) -/
+
+def contendInit : Config :=
+  init sys levelClient [[.call f_TxPool_RemoveTransaction], [.call f_TxPool_RemoveTransaction]]
+def contendSchedule : List (Nat × Nat × Nat) := [(2,0,0), (2,0,0), (2,0,0), (3,0,0)]
+def contendThreads : List Thread :=
+  [ mkThread (sys.bodyOf f_Chain_blockProcessor) 2, mkThread (sys.bodyOf f_Casper_authVerificationLoop) 1,
+    { prog := [.act (.unlock m_TxPool_mtx)], held := [(m_TxPool_mtx, .W)], pw := none, st := .idle, peer := none, lvl := 3 },
+    { prog := [.act (.lock m_TxPool_mtx), .act (.unlock m_TxPool_mtx)], held := [], pw := none, st := .idle, peer := none, lvl := 3 } ]
+
+theorem contend_runs : (run sys contendInit contendSchedule).map (·.threads) = some contendThreads := by decide
+
+example : ∃ c, Reach sys contendInit c ∧ ∃ i, Stuck sys c i := by
+  have hrun := contend_runs
+  cases hc : run sys contendInit contendSchedule with
+  | none => rw [hc] at hrun; cases hrun
+  | some c =>
+    rw [hc] at hrun
+    simp only [Option.map_some, Option.some.injEq] at hrun
+    refine ⟨c, run_reach _ _ _ Reach.refl hc, 3, ?_⟩
+    have h3 : c.threads[3]? = some (contendThreads[3]) := by rw [hrun]; rfl
+    have hW : c.holdsW m_TxPool_mtx = true := by simp only [Config.holdsW, hrun]; decide
+    refine ⟨⟨_, h3, by decide, ?_⟩, ?_⟩
+    · intro n p
+      simp only [step, h3]
+      simp [stepT, contendThreads, hW]
+    · rintro ⟨t, arms, k, ht, hp⟩
+      rw [h3] at ht; cases ht
+      simp [contendThreads] at hp
 
 end BytomModel.Props.C37
